@@ -1615,7 +1615,9 @@ pub fn run_history(cfg: &Rc<Cfg>, verbose: bool) -> (Outcome, Option<Vec<String>
             break;
         }
     }
-    // closing dispatches (flush) without choices beyond in-callback defaults
+    // the state the history ended in (extensions start from here)
+    let fp_at_end = if ctx.poisoned { None } else { Some(ctx.fingerprint(cfg.prune)) };
+    // closing dispatches (flush)
     for _ in 0..cfg.final_dispatches {
         if ctx.poisoned {
             break;
@@ -1625,7 +1627,7 @@ pub fn run_history(cfg: &Rc<Cfg>, verbose: bool) -> (Outcome, Option<Vec<String>
         }
     }
     // drop the loop and every handle: everything still inserted is released exactly once
-    let fp = if ctx.poisoned { None } else { Some(ctx.fingerprint(cfg.prune)) };
+    let fp = if ctx.poisoned { None } else { fp_at_end };
     let Ctx {
         h, m, rt, mut violations, decoded, obs, transitions, callbacks, deviated, clauses, verbose, depth_used, poisoned, ..
     } = ctx;
